@@ -4,6 +4,8 @@ import (
 	"encoding/json"
 	"flag"
 	"fmt"
+	"go/ast"
+	"go/types"
 	"os"
 	"path/filepath"
 	"sort"
@@ -80,6 +82,26 @@ func main() {
 	}
 	vdir := verifDir()
 
+	if os.Getenv("FCHECK_DUMP_PINNED") != "" {
+		q, err := Load(*repo, nil, "", false)
+		if err != nil {
+			fmt.Println(err)
+			os.Exit(2)
+		}
+		var lines []string
+		for _, f := range q.Root.Syntax {
+			for _, d := range f.Decls {
+				if fd, ok := d.(*ast.FuncDecl); ok {
+					if o, ok := q.Root.TypesInfo.Defs[fd.Name].(*types.Func); ok {
+						lines = append(lines, fmt.Sprintf("\t%q: %q,", funcObjKey(o), sigKey(o)))
+					}
+				}
+			}
+		}
+		sort.Strings(lines)
+		fmt.Println(strings.Join(lines, "\n"))
+		return
+	}
 	if *list {
 		var ids []string
 		for id := range props {
@@ -144,8 +166,8 @@ func main() {
 	var normDone []string
 	var normOverlay map[string][]byte
 	normTried := false
-	var inl *Prog
-	var inlDone []string
+	var inls []*Prog
+	var inlDone [][]string
 	inlTried := false
 	for _, id := range ids {
 		rep := NewReport(id, *tier, seed)
@@ -158,7 +180,7 @@ func main() {
 		// invisible to rules that read direct calls.
 		if !normTried {
 			normTried = true
-			if files, done := SpecialiseHigherOrder(*repo, overlay, c.protectedKeys()); len(done) > 0 {
+			if files, done := SpecialiseHigherOrder(*repo, overlay, pinnedView(p)); len(done) > 0 {
 				merged := map[string][]byte{}
 				for k, v := range overlay {
 					merged[k] = v
@@ -185,7 +207,7 @@ func main() {
 					}
 				}
 				if d := os.Getenv("FCHECK_DUMP_NORMALISED"); d != "" {
-					if files, _ := SpecialiseHigherOrder(*repo, overlay, c.protectedKeys()); files != nil {
+					if files, _ := SpecialiseHigherOrder(*repo, overlay, pinnedView(p)); files != nil {
 						for k, v := range files {
 							os.WriteFile(filepath.Join(d, filepath.Base(k)), v, 0o644)
 						}
@@ -208,34 +230,81 @@ func main() {
 		}
 		// Extracted single-use helpers are folded back into their callers (see inline.go) when something is still
 		// raised: the verdict of that equivalent program stands if it is clean.
-		if rep.failing(vdir) > 0 && os.Getenv("FCHECK_NO_INLINE") == "" {
+		wasFailing := rep.failing(vdir) > 0
+		if (wasFailing || hasNewHelpers(p)) && os.Getenv("FCHECK_NO_INLINE") == "" {
 			if !inlTried {
 				inlTried = true
-				base, baseOverlay, baseCtx := p, overlay, c
+				base, baseOverlay := p, overlay
 				if norm != nil {
 					base, baseOverlay = norm, normOverlay
-					baseCtx = NewCtx(norm, NewReport(id, *tier, seed), *tier)
 				}
-				if files, done := InlineSingleUse(*repo, baseOverlay, base, baseCtx.protectedKeys(), 4); len(done) > 0 {
-					if np, err := Load(*repo, files, "", true); err == nil {
-						inl, inlDone = np, done
-					} else if os.Getenv("FCHECK_DEBUG") != "" {
-						fmt.Println("inlined program discarded:", err)
+				// first the helpers used once; then, in a second attempt, also small shared helpers a later edit introduced
+				for _, shared := range []bool{false, true} {
+					files, done := InlineSingleUse(*repo, baseOverlay, base, 5, shared)
+					if len(done) == 0 {
+						inls = append(inls, nil)
+						continue
 					}
-					if d := os.Getenv("FCHECK_DUMP_INLINED"); d != "" {
+					if shared && len(inls) > 0 && inls[0] != nil && strings.Join(done, ";") == strings.Join(inlDone[0], ";") {
+						inls = append(inls, nil)
+						continue // nothing more than the first attempt
+					}
+					np, err := Load(*repo, files, "", true)
+					if err != nil {
+						if os.Getenv("FCHECK_DEBUG") != "" {
+							fmt.Println("inlined program discarded:", err)
+						}
+						np = nil
+					}
+					inls = append(inls, np)
+					for len(inlDone) < len(inls) {
+						inlDone = append(inlDone, nil)
+					}
+					inlDone[len(inls)-1] = done
+					if d := os.Getenv("FCHECK_DUMP_INLINED"); d != "" && np != nil {
 						for k, v := range files {
-							os.WriteFile(filepath.Join(d, filepath.Base(k)), v, 0o644)
+							os.WriteFile(filepath.Join(d, fmt.Sprintf("%v_", shared)+filepath.Base(k)), v, 0o644)
 						}
 					}
 				}
 			}
-			if inl != nil {
+			if !wasFailing {
+				// The program as written is clean. A slip inside (or at the seam of) a helper that a later edit cut out
+				// is invisible to rules that read the caller only: definite violations of the most expanded form count.
+				for ai := len(inls) - 1; ai >= 0; ai-- {
+					if inls[ai] == nil {
+						continue
+					}
+					rep3 := NewReport(id, *tier, seed)
+					runProp(NewCtx(inls[ai], rep3, *tier), props[id])
+					if os.Getenv("FCHECK_DEBUG") != "" {
+						fmt.Println("inlined (program as written is clean):", inlDone[ai])
+						for _, o := range rep3.Obs {
+							if o.Verdict != OK {
+								fmt.Printf("expanded program: %s %s: %s: %s: %s\n", o.Verdict, o.Pos, o.Rule, o.Construct, o.Reason)
+							}
+						}
+					}
+					if rep3.definiteViolations(vdir) > 0 {
+						for _, o := range rep3.Obs {
+							if o.Verdict == Violation && o.Construct != "VACUOUS" {
+								rep.Add(o.Rule, o.Construct+" [helpers expanded]", o.Pos, Violation, o.Reason)
+							}
+						}
+					}
+					break
+				}
+			}
+			for ai, inl := range inls {
+				if inl == nil || !wasFailing {
+					continue
+				}
 				rep3 := NewReport(id, *tier, seed)
 				c3 := NewCtx(inl, rep3, *tier)
 				runProp(c3, props[id])
-				rep3.Analysed["inlined_single_use_helpers"] = inlDone
+				rep3.Analysed["inlined_helpers"] = inlDone[ai]
 				if os.Getenv("FCHECK_DEBUG") != "" {
-					fmt.Println("inlined:", inlDone)
+					fmt.Println("inlined:", inlDone[ai])
 					for _, o := range rep3.Obs {
 						if o.Verdict != OK {
 							fmt.Printf("inlined program: %s %s: %s: %s: %s\n", o.Verdict, o.Pos, o.Rule, o.Construct, o.Reason)
@@ -243,8 +312,9 @@ func main() {
 					}
 				}
 				if rep3.failing(vdir) == 0 {
-					rep3.Add(id+".normalisation", "single-use helpers expanded at their call sites", "-", OK, "")
+					rep3.Add(id+".normalisation", "extracted helpers expanded at their call sites", "-", OK, "")
 					rep, c = rep3, c3
+					break
 				}
 			}
 		}
@@ -332,4 +402,53 @@ func doReplay(path, repo, vdir string) int {
 	}
 	fmt.Printf("replayed %s: obligation no longer exists on this tree (construct disappeared)\n", doc.Obligation.Key())
 	return 0
+}
+
+// hasNewHelpers: the package declares an unexported function or method that the pinned tree does not have.
+func hasNewHelpers(p *Prog) bool {
+	for _, f := range p.Root.Syntax {
+		for _, d := range f.Decls {
+			fd, ok := d.(*ast.FuncDecl)
+			if !ok || fd.Body == nil {
+				continue
+			}
+			o, ok := p.Root.TypesInfo.Defs[fd.Name].(*types.Func)
+			if !ok || o.Exported() || o.Name() == "init" {
+				continue
+			}
+			if !pinnedView(p)[funcObjKey(o)] {
+				return true
+			}
+		}
+	}
+	return false
+}
+
+// sigKey: the signature of a function without parameter names (receiver type included).
+func sigKey(o *types.Func) string {
+	sig := o.Type().(*types.Signature)
+	qual := func(pk *types.Package) string { return pk.Name() }
+	var b strings.Builder
+	if r := sig.Recv(); r != nil {
+		b.WriteString("(" + types.TypeString(r.Type(), qual) + ")")
+	}
+	b.WriteString("(")
+	for i := 0; i < sig.Params().Len(); i++ {
+		if i > 0 {
+			b.WriteString(", ")
+		}
+		b.WriteString(types.TypeString(sig.Params().At(i).Type(), qual))
+	}
+	b.WriteString(")(")
+	for i := 0; i < sig.Results().Len(); i++ {
+		if i > 0 {
+			b.WriteString(", ")
+		}
+		b.WriteString(types.TypeString(sig.Results().At(i).Type(), qual))
+	}
+	b.WriteString(")")
+	if sig.Variadic() {
+		b.WriteString("...")
+	}
+	return b.String()
 }
